@@ -183,14 +183,13 @@ Proof. unfold drawing_env. rewrite src_flags_override. reflexivity. Qed.
 Lemma drawing_env_plain env : drawing_env src_flags false env = env.
 Proof. reflexivity. Qed.
 Lemma vis_env_durations env :
-  genv (vis_env env) GReadout = 16 /\ genv (vis_env env) GMicrowave = 8 /\ genv (vis_env env) GFlux = 8
-  /\ genv (vis_env env) GReset = 16 /\ renv (vis_env env) = renv env.
-Proof. repeat split. Qed.
+  (forall k, table_get VISUALIZATION_DURATION_REGISTRY (gkey_name k) = Some (genv (vis_env env) k)) /\ renv (vis_env env) = renv env.
+Proof. split; [intros []; reflexivity | reflexivity]. Qed.
 
 Lemma compact_durations env :
   drawing_env src_flags true env = vis_env env /\ drawing_env src_flags false env = env
-  /\ genv (vis_env env) GReadout = 16 /\ genv (vis_env env) GMicrowave = 8 /\ genv (vis_env env) GFlux = 8
-  /\ genv (vis_env env) GReset = 16 /\ renv (vis_env env) = renv env.
+  /\ (forall k, table_get VISUALIZATION_DURATION_REGISTRY (gkey_name k) = Some (genv (vis_env env) k))
+  /\ renv (vis_env env) = renv env.
 Proof. split; [apply drawing_env_compact|]. split; [reflexivity | apply vis_env_durations]. Qed.
 
 (* the history of a check case: observe, draw, observe *)
@@ -253,6 +252,14 @@ Example stale_after_plot_without_invalidation :
   /\ map oe_s (o_ops (model_obs ex_env ex_nodes)) = [0; 0; 40; 40].
 Proof. repeat split; vm_compute; reflexivity. Qed.
 
+(* so the hypothesis of plot_with_preserves cannot be dropped *)
+Lemma plot_needs_invalidation : exists F env ns, mf_sound F = false /\
+  fst (m_obs F (snd (plot_with F true [] None (fresh_state env ns)))) <> model_obs env ns.
+Proof.
+  exists old_flags, ex_env, ex_nodes. split; [reflexivity|]. intros H.
+  apply (f_equal (fun o => map oe_s (o_ops o))) in H. vm_compute in H. discriminate.
+Qed.
+
 Example stale_drawing_without_invalidation :
   let st1 := snd (m_obs old_flags (fresh_state ex_env ex_nodes)) in
   option_map (fun d => map e_start (dr_ops d)) (fst (plot_with old_flags true [] None st1)) = Some [0; 0; 8; 40]
@@ -266,15 +273,16 @@ Example reorder_example :
   /\ map (label_of (Some [(0, 1007)])) [2; 0; 1] = [2; 1007; 1].
 Proof. repeat split. Qed.
 
-(* two CPhase gates on interleaved rows in one time slot, compact durations: shifted by -2 and +2 ticks (a quarter of 8);
-   two VirtualTwoQubitVacant of duration 2 (16 ticks): shifted by 8 ticks = half their duration (finding F19) *)
+(* two CPhase gates on interleaved rows in one time slot, compact durations (8 ticks): drawn 2 ticks = a quarter of their
+   duration to the right and to the left of their common start time 0 *)
 Definition ex_tq (c : string) (d : dstrat) : list cmd :=
   [CAdd (mk_leaf 0 (cls c) [0; 2] QubitChannel_FLUX d None) None;
    CAdd (mk_leaf 1 (cls c) [1; 3] QubitChannel_FLUX d None) None].
-Definition xs_of (p : list cmd) : option (list (list rat)) :=
-  option_map (fun d => map (fun c => map tr_x (dc_tr c)) (dr_comps d))
-             (true_drawing (vis_env ex_env) (run_prog ex_env p) [0; 1; 2; 3] None).
+Definition xs_of (p : list cmd) : list (list rat) :=
+  match true_drawing (vis_env ex_env) (run_prog ex_env p) [0; 1; 2; 3] None with
+  | Some d => map (fun c => map tr_x (dc_tr c)) (dr_comps d)
+  | None => []
+  end.
 Example offset_example :
-  xs_of (ex_tq "CPhase" (DGlobal GFlux)) = Some [[(64, 32); (64, 32)]; [(-64, 32); (-64, 32)]]
-  /\ xs_of (ex_tq "VirtualTwoQubitVacant" (DFixed 16)) = Some [[(256, 32); (256, 32)]; [(-256, 32); (-256, 32)]].
-Proof. split; vm_compute; reflexivity. Qed.
+  list_eqb (list_eqb rat_eqb) (xs_of (ex_tq "CPhase" (DGlobal GFlux))) [[(2, 1); (2, 1)]; [(-2, 1); (-2, 1)]] = true.
+Proof. vm_compute. reflexivity. Qed.
